@@ -238,6 +238,10 @@ def check(prop, tier):
         # a REJECTED refresh of a forged key must leave both keys (and the registered identifiers) untouched
         import satellites
         extra_viol, extra_cov = satellites.c08_viols(tier, wd, prop, only={"modified-on-reject", "issued-refused"})
+    if prop == "C11":
+        # "carries ML-KEM ciphertexts bound into the tag": tampering with the ciphertexts must be detected
+        import satellites
+        extra_viol, extra_cov = satellites.c07_viols(tier, wd, prop)
     if prop == "C09":
         # "a forged user key" is one of the documented error causes: the tamper kinds of UskMac.tla
         import satellites
